@@ -20,9 +20,10 @@
                     %path, any offset for %z, any in-range digits), so that "recognized => Producible" can
                     only fail for names that no recorder run, in any zone, for any path, could have written.
    Layer 1 (from the code): DecodeImpl = the regular expression Decode builds, as a backtracking matcher
-     (leftmost, %path non-greedy), with the code's two deviations from the ideal as named switches:
-     UnanchoredSearch (the expression is searched, not anchored to the whole name) and NoRangeCheck (two
-     digits are accepted for month/day/hour/minute/second whatever their value).                          *)
+     (leftmost, %path non-greedy). Two deviations from the ideal are named switches (constants CodeUnanchored,
+     CodeNoRange of SegNameBase.tla): UnanchoredSearch (the expression is searched, not anchored to the whole
+     name) and NoRangeCheck (two digits are accepted for month/day/hour/minute/second whatever their value).
+     The original code had both (findings C26-F1/F2); the repaired code has neither (default FALSE).       *)
 EXTENDS SegNameBase
 
 CONSTANTS FormatIds,     \* which of AllFormats are explored
